@@ -1,3 +1,4 @@
+import Fpdec.Kernels.Consts
 import Fpdec.Kernels.DecRound
 import Fpdec.Kernels.WideFits
 import Fpdec.Kernels.Round
@@ -269,5 +270,16 @@ theorem kernel_decimal_round (prof : Profile) (tm : Mode) (d : Dec) (n : Int) (h
     Gen.K.decimal_round prof tm d n = round prof tm d n := Kernels.decimal_round_eq prof tm d n hd
 theorem kernel_decimal_checked_round (prof : Profile) (tm : Mode) (d : Dec) (n : Int) (hd : fitsI128 d.coeff = true) :
     Gen.K.decimal_checked_round prof tm d n = checkedRound prof tm d n := Kernels.decimal_checked_round_eq prof tm d n hd
+
+/-- the associated constants of `Decimal` as extracted from src/lib.rs on this run are the model's (`ZERO`/`ONE` are what the
+    translated kernels return for `Self::ZERO` / `Self::ONE`; `MIN ..= MAX` with at most `DELTA`'s digits is the domain `Dom`) -/
+theorem decimal_consts :
+    Gen.DECIMAL_CONSTS =
+      [("ZERO", Dec.ZERO.coeff, Dec.ZERO.nfrac), ("ONE", Dec.ONE.coeff, Dec.ONE.nfrac),
+       ("NEG_ONE", Dec.NEG_ONE.coeff, Dec.NEG_ONE.nfrac), ("TWO", Dec.TWO.coeff, Dec.TWO.nfrac),
+       ("TEN", Dec.TEN.coeff, Dec.TEN.nfrac), ("MAX", Dec.MAX.coeff, Dec.MAX.nfrac), ("MIN", Dec.MIN.coeff, Dec.MIN.nfrac),
+       ("DELTA", Dec.DELTA.coeff, Dec.DELTA.nfrac)] := Kernels.decimal_consts_tie
+theorem dom_is_min_max (d : Dec) :
+    (Dec.MIN.coeff ≤ d.coeff ∧ d.coeff ≤ Dec.MAX.coeff ∧ d.nfrac ≤ Dec.DELTA.nfrac) ↔ Dom d := Kernels.dom_is_min_max d
 
 end Fpdec.Props.C05
